@@ -145,6 +145,13 @@ def check(ctx: Ctx) -> None:
                 elif v == "out":
                     bad.append(f"a font number for which the index `{path_of(rec[1])}` is beyond the table")
         kind = out[0] if isinstance(out, tuple) else out
+        # unknown, not guessed: a validity test against a container the evaluator could not resolve decides nothing
+        unknown = [k for k in val if (dt.cmp.get(k) or ("",))[0] == "member" and isinstance(dt.cmp[k][2], Sym)
+                   and (dt.cmp[k][1] == unit or font_derived(dt.cmp[k][1]) or (isinstance(dt.cmp[k][1], Sym) and dt.cmp[k][1].path == "unit"))]
+        unknown += [k for k in val if ("?" in k) and (dt.cmp.get(k) or ("",))[0] in ("member", "index", "substr") and "?mutable:" not in k]
+        if unknown:
+            ctx.gap("R20.3", f"the validity test `{unknown[0][:80]}` refers to a value the evaluator could not resolve")
+            continue
         if bad:
             what = "; ".join(bad)
             if kind == "raise":
@@ -252,7 +259,7 @@ def check(ctx: Ctx) -> None:
     by_key: dict[str, dict] = {}
     for row in rows:
         for e in row["effects"]:
-            if e[0] == "setitem" and isinstance(e[1], dict):
+            if e[0] == "setitem" and (isinstance(e[1], dict) or (isinstance(e[1], Sym) and e[1].path.startswith("?mutable:"))):
                 k, v = e[2], e[3]
                 dk, dv = _deps(k, params), _deps(v, params)
                 kparts = list(k) if isinstance(k, tuple) else [k]
@@ -270,6 +277,22 @@ def check(ctx: Ctx) -> None:
     from ..callgraph import CallGraph
     from ..effects import memo_is_pure
     cg = CallGraph(pm)
+    try:
+        from ..effects import memo_key_gaps
+    except ImportError:
+        memo_key_gaps = None
+    if memo_key_gaps is not None:
+        for short in sorted(cg.reachable([fi.short])):
+            f2 = pm.funcs.get(short)
+            if f2 is None or f2.module != fi.module:
+                continue
+            for rec in memo_key_gaps(pm, f2):
+                node, cont, kl, vl, missing = rec[:5]
+                ctx.instance("R20.5", f2.where(node), f"{short}: memo {cont} key leaves {sorted(kl)} value leaves {sorted(vl)} missing {missing}")
+                if missing:
+                    ctx.violation("R20.5", fi.short, "memo key lacks " + ",".join(m.split(".")[0] for m in missing), f2.where(node),
+                                  f"{short}: the memo {cont} stores a value computed from {sorted(vl)} under a key that does not contain {missing}: a later call with another "
+                                  f"{missing[0]} returns the stale value")
     for short in sorted(cg.reachable([fi.short])):
         f2 = pm.funcs.get(short)
         if f2 is None or f2.module != fi.module and not f2.module.endswith("fonts_mapping"):
@@ -291,10 +314,13 @@ def r20_2(ctx: Ctx, dt: SDT, fi) -> None:
     pm = ctx.pm
     f2 = pm.func("FontMapping.get_font_name_to_number_mapping")
     try:
-        n2n = const_call(pm, "FontMapping.get_font_name_to_number_mapping")
-        num2 = const_call(pm, "FontMapping.get_font_number_to_name_mapping")
-        paths = const_call(pm, "FontMapping.get_font_paths")
-        table = const_call(pm, "FontMapping.get_font_table")
+        vals = []
+        for short in ("FontMapping.get_font_name_to_number_mapping", "FontMapping.get_font_number_to_name_mapping", "FontMapping.get_font_paths", "FontMapping.get_font_table"):
+            v = const_call(pm, short)
+            if v is NOC:
+                v = dt.closed_value(pm.func(short).module, short + "()")       # tables built by zip / dict(...) / comprehensions: symbolic evaluation, closed result
+            vals.append(v)
+        n2n, num2, paths, table = vals
     except AnalysisError as e:
         ctx.gap("R20.2", f"font tables not found: {e}")
         return
